@@ -161,6 +161,8 @@ where
     }
 
     fn solve(&mut self, timeout: Duration) -> Result<Path<S>, PlanningError> {
+        #[cfg(feature = "verif")]
+        use crate::verif::SimInstant as Instant;
         // Ensure setup has been called.
         let pd = self
             .problem_def
